@@ -128,6 +128,78 @@ def run_spline(tier="quick", seed=0):
     return res
 
 
+def bspline_tu():
+    return ('#include "manifold_shims.hpp"\n#include "bspline_shims.hpp"\nusing BS = vb::B<3, smooth::SE2d, 5, 4>;\n'
+            'extern "C" void bspl_shared_eval(const double*c,double t0,double dt,double t,double*o,double*ve,double*ac){\n'
+            '  const BS::Sp x(t0, dt, BS::ctrl(c)); BS::Tan v, a;\n'
+            '  // first-use initialisation of the function-local statics (guarded by the C++ runtime) happens before the region\n'
+            '  { BS::Tan v0, a0; (void)x(t, v0, a0); }\n'
+            '  verif_const_begin(); const smooth::SE2d r = verif_shared(x)(t, v, a); const double tm = verif_shared(x).t_max() + verif_shared(x).t_min(); verif_const_end();\n'
+            '  vs::IO<smooth::SE2d>::put(o, r); BS::tput(ve, v); BS::tput(ac, a); o[0] += 0 * tm; }\n')
+
+
+def run_bspline(tier="quick", seed=0):
+    from . import c13
+    res = Results(PROP)
+    tag = PROP + "/BSpline"
+    try:
+        xt = Extract("c18_bspline", bspline_tu(), rules=tuple(c13.RULES) + ("R3",))
+    except Exception as e:
+        res.add(tag + "/extract", "error", "infra", 0.0, str(e)[-1500:])
+        return res
+    rng = random.Random(seed + 3)
+    bufs = [("c", 20, "d"), ("t0", None, "d"), ("dt", None, "d"), ("t", None, "d"), ("o", 4, "d"), ("ve", 3, "d"), ("ac", 3, "d")]
+    envs = []
+    for lab, t in c13.time_points(3, 5, 0.5, 0.25):
+        e = c13.ctrl_env("se2", 5, rng)
+        e.update(t0=0.5, dt=0.25, t=t)
+        envs.append(e)
+
+    def go():
+        res.functions.add("BSpline<3,SE2d>::operator() const, t_min, t_max")
+        for k, pv in enumerate(xt.run_concolic("bspl_shared_eval", bufs, envs)):
+            res.paths += 1
+            region_record(res, "%s<3,SE2d>::operator()/p%d" % (tag, k), pv)
+    guarded(res, tag, go)
+    return res
+
+
+def diff_tu():
+    return ('#include "diff_shims.hpp"\n#include "manifold_shims.hpp"\n'
+            'extern "C" void diff_shared(const double*x,const double*g,double*f,double*J,double*H){\n'
+            '  const Eigen::Vector3d a = Eigen::Map<const Eigen::Vector3d>(x); const smooth::SO3d q = smooth::Map<const smooth::SO3d>(g);\n'
+            '  verif_const_begin();\n'
+            '  const auto r1 = smooth::diff::dr<1, smooth::diff::Type::Numerical>(vd::UF<3, 3>{}, smooth::wrt(verif_shared(q), verif_shared(a)));\n'
+            '  const auto r2 = smooth::diff::dr<2, smooth::diff::Type::Numerical>(vd::UF<3, 3>{}, smooth::wrt(verif_shared(q), verif_shared(a)));\n'
+            '  verif_const_end();\n'
+            '  vd::putm(f, std::get<0>(r1)); vd::putm(J, std::get<1>(r1)); vd::putm(H, std::get<2>(r2)); }\n')
+
+
+def run_diff(tier="quick", seed=0):
+    from . import c08
+    res = Results(PROP)
+    tag = PROP + "/diff::dr"
+    try:
+        xt = Extract("c18_diff", diff_tu(), rules=("R3",))
+    except Exception as e:
+        res.add(tag + "/extract", "error", "infra", 0.0, str(e)[-1500:])
+        return res
+    rng = random.Random(seed + 4)
+    bufs = [("x", 3, "d"), ("g", 4, "d"), ("f", 3, "d"), ("J", 18, "d"), ("H", 108, "d")]
+    envs = []
+    for zm in (None, {4}, {4, 5, 6}):
+        e0 = c08.sample_x("C", rng, zero_mask=zm)
+        envs.append(dict({"g%d" % i: e0["x%d" % i] for i in range(4)}, **{"x%d" % i: e0["x%d" % (4 + i)] for i in range(3)}))
+
+    def go():
+        res.functions.add("diff::dr<1|2, Numerical> with const arguments")
+        for k, pv in enumerate(xt.run_concolic("diff_shared", bufs, envs)):
+            res.paths += 1
+            region_record(res, "%s<K,Numerical>(const args)/p%d" % (tag, k), pv)
+    guarded(res, tag, go)
+    return res
+
+
 def run_groups(gname, tier="quick", seed=0):
     """const/static group members write neither their inputs nor any global (re-uses the frame contracts of C16)"""
     G = G_.BY_NAME[gname]
@@ -196,7 +268,7 @@ def run_sparse(tier="quick", seed=0):
 
 
 def tasks(tier, seed=0):
-    t = [("c18", "run_manifolds", (), dict(tier=tier, seed=seed, canary=True)), ("c18", "run_spline", (), dict(tier=tier, seed=seed)),
+    t = [("c18", "run_manifolds", (), dict(tier=tier, seed=seed, canary=True)), ("c18", "run_spline", (), dict(tier=tier, seed=seed)), ("c18", "run_bspline", (), dict(tier=tier, seed=seed)), ("c18", "run_diff", (), dict(tier=tier, seed=seed)),
          ("c18", "run_sparse", (), dict(tier=tier, seed=seed))]
     for g in (["SO3", "SE2", "SE3"] if tier == "quick" else ["SO2", "SO3", "SE2", "SE3", "C1", "Galilei", "SE_2_3", "B1"]):
         t.append(("c18", "run_groups", (g,), dict(tier=tier, seed=seed)))
@@ -204,7 +276,9 @@ def tasks(tier, seed=0):
 
 
 def prebuild(tier):
+    from . import c13
     jobs = [("c07_manifolds", c07.tu(), "ll", c07.RULES, ()), ("c18_spline", spline_tu(), "ll", RULES, ()),
+            ("c18_bspline", bspline_tu(), "ll", tuple(c13.RULES) + ("R3",), ()), ("c18_diff", diff_tu(), "ll", ("R3",), ()),
             ("c19_" + G_.so3.prefix("d"), c19.tu(G_.so3), "ll", (), ())]
     for g in (G_.so3, G_.se2, G_.se3):
         jobs.append(("grp_" + g.prefix("d"), g.tu("d"), "ll", (), ()))
@@ -215,4 +289,4 @@ TRUSTED = ["A5 non-interference: operations whose shared-write frame is empty do
            "A6 clang/irsx memory model; the opaque identity verif_launder keeps const objects in memory", "A8 scalar Eigen paths",
            "static initialisers of inline variables run before main; function-local statics are guarded by __cxa_guard (executed sequentially here)"]
 ASSUMPTIONS = ["threads share only const inputs; outputs are thread-private"]
-UNVERIFIED = ["BSpline::operator()", "diff::dr", "minimize", "fit_spline / fit_bspline", "std::vector<M> adaptor", "real interleavings (no schedule is explored by this family of technique)"]
+UNVERIFIED = ["minimize", "fit_spline / fit_bspline", "std::vector<M> adaptor", "real interleavings (no schedule is explored by this family of technique)"]
